@@ -331,6 +331,28 @@ def run_cases(ctx, module, fn, cases, nproc=None, chunk=None, env=None, deadline
 
 
 # ---------------------------------------------------------------------- trace validation batches
+def run_cases_prebuilt(ctx, calls, select, size=5, key=None):
+    """run call_parse cases; those chosen by `select(i)` are executed in batches whose DateDataParser objects are all
+    constructed before any of them is used (harness.lib.call_parse_batch); results come back in case order"""
+    idx = [i for i in range(len(calls)) if select(i)]
+    if key:
+        idx.sort(key=key)
+    chosen = set(idx)
+    batches = [idx[k:k + size] for k in range(0, len(idx), size)]
+    rest = [i for i in range(len(calls)) if i not in chosen]
+    out = [None] * len(calls)
+    if batches:
+        rb = run_cases(ctx, "harness.lib", "call_parse_batch", [{"cases": [calls[i] for i in b]} for b in batches], chunk=20)
+        for b, rs in zip(batches, rb):
+            for i, r in zip(b, rs):
+                out[i] = r
+    if rest:
+        rr = run_cases(ctx, "harness.lib", "call_parse", [calls[i] for i in rest])
+        for i, r in zip(rest, rr):
+            out[i] = r
+    return out
+
+
 def validate_traces(ctx, module, cfg_text, records, shards=None, env=None, consts=None, name=None,
                     timeout=900, tags=("REJECT",)):
     """Write `records` as NDJSON shards and let TLC validate each shard with spec `module`
